@@ -36,11 +36,11 @@ def gen_target(rnd, kinds=("gauss", "bimodal", "expedge", "corr"), d=None, blobs
 
 def gen_cfg(rnd, d, *, clustering=None, kernels=("tpcn", "rwm"), resamplers=("mult", "syst"), vv=True, small=True,
             cluster_every=(1,), n_max_clusters=(None,), boundaries=False):
-    n = pick(rnd, [8, 16, 24, 32] if small else [32, 64, 128])
+    n = pick(rnd, [8, 16, 24, 25, 30, 32] if small else [32, 64, 128])
     n = max(n, 4 * d)
     cfg = dict(
         n_particles=n,
-        ess_ratio=pick(rnd, [1.0, 2.0, 2.0, 3.0]),
+        ess_ratio=pick(rnd, [1.0, 2.0, 2.0, 3.0, 0.7, 1.5, 2.3]),  # incl. targets ess_ratio*n_particles that are not integers
         sample=pick(rnd, list(kernels)),
         resample=pick(rnd, list(resamplers)),
         clustering=rnd.random() < 0.4 if clustering is None else clustering,
@@ -58,7 +58,9 @@ def gen_cfg(rnd, d, *, clustering=None, kernels=("tpcn", "rwm"), resamplers=("mu
         cfg["n_steps"] = pick(rnd, [1, 2, 3])
     if rnd.random() < 0.3:
         cfg["n_max_steps"] = pick(rnd, [1, 5, 10])
-    if boundaries and d >= 1 and rnd.random() < 0.5:
+    if boundaries and rnd.random() < 0.08:
+        cfg["periodic"], cfg["reflective"] = [], []  # empty lists are valid and mean "no special coordinate"
+    elif boundaries and d >= 1 and rnd.random() < 0.5:
         idx = rnd.randrange(d)
         if rnd.random() < 0.5:
             cfg["periodic"] = [idx]
